@@ -27,7 +27,8 @@ class CoopThreads:
         self.recs = []
 
     def spawn(self, target):
-        rec = {"wake": self.clock.t, "go": False, "done": False, "thread": None, "error": None}
+        rec = {"wake": self.clock.t, "go": False, "done": False, "thread": None, "error": None,
+               "name": getattr(target, "__name__", "")}
 
         def body():
             with self.cv:
